@@ -400,6 +400,15 @@ def battery(repo: Repo, ctx, rule: str, prefixes: Iterable[str],
                      hits[:3]) + f' -- {consequence}',
            f'{hits[0][0].module.rel()}:{hits[0][1].lineno}' if hits else '',
            sample=f'{n} chains', nontrivial=bool(n))
+    n, hits = falsy_member_tests(repo, prefixes)
+    ctx.ob(rule, 'slips:falsy-enum-member', not hits,
+           '; '.join(f'{f.qualname}: `{t}` tests a {e} field by truthiness '
+                     f'while {e}.{mem} is 0: that member counts as "not '
+                     f'set"' for f, t, e, mem, _n in hits[:3]) +
+           f' -- {consequence}',
+           f'{hits[0][0].module.rel()}:{hits[0][4].lineno}' if hits else '',
+           sample=f'{n} truthiness tests on int-enum fields',
+           nontrivial=bool(n))
     n, hits = invariant_filters(repo, prefixes)
     ctx.ob(rule, 'slips:loop-invariant-filter', not hits,
            '; '.join(f'{f.qualname}: the filter `{t}` of a comprehension '
@@ -425,6 +434,68 @@ INVARIANT_FILTER_OK = {
     ('edb.schema.functions', 'cur_type.issubclass(schema, f_type)'),
     ('edb.server.compiler.ddl', 'src.is_material_object_type(schema)'),
 }
+
+
+def falsy_member_tests(repo: Repo, prefixes: Iterable[str]):
+    """(function, test text, enum, falsy member, node) for truthiness tests
+    (`if x.f:`, `x.f and ..`, `not x.f`) on an attribute that some class
+    declares with an IntEnum type one of whose members is 0.  Optional
+    int-enum fields are commonly tested that way to mean "is set"; it stops
+    meaning that the day a member gets the value 0."""
+    memo = getattr(repo, '_falsy_enum_fields', None)
+    if memo is None:
+        intenums = {}
+        for q, c in repo.classes.items():
+            if any(norm(b).split('.')[-1] == 'IntEnum'
+                   for b in c.node.bases):
+                z = [k for k, v in c.assign_fields.items()
+                     if isinstance(v, ast.Constant) and v.value == 0
+                     and not isinstance(v.value, bool)]
+                intenums[c.name] = z
+        fields = {}
+        for q, c in repo.classes.items():
+            for fn_, an in c.ann_fields.items():
+                toks = norm(an.annotation).replace('[', ' ').replace(
+                    ']', ' ').replace('.', ' ').replace(',', ' ').split()
+                for e in intenums:
+                    if e in toks:
+                        fields.setdefault(fn_, set()).add(e)
+        memo = repo._falsy_enum_fields = (intenums, fields)
+    intenums, fields = memo
+    hits = []
+    n = 0
+    for m in repo.modules.values():
+        if not m.name.startswith(tuple(prefixes)):
+            continue
+        for f in repo._funcs_of(m):
+            if f.parent is not None:
+                continue
+            tests = []
+            for x in ast.walk(f.node):
+                if isinstance(x, (ast.If, ast.While, ast.IfExp)):
+                    tests.append(x.test)
+                elif isinstance(x, ast.Assert):
+                    tests.append(x.test)
+                elif isinstance(x, ast.comprehension):
+                    tests += x.ifs
+            seen = set()
+            todo = list(tests)
+            while todo:
+                t = todo.pop()
+                if id(t) in seen:
+                    continue
+                seen.add(id(t))
+                if isinstance(t, ast.BoolOp):
+                    todo += t.values
+                elif isinstance(t, ast.UnaryOp) and isinstance(
+                        t.op, ast.Not):
+                    todo.append(t.operand)
+                elif isinstance(t, ast.Attribute) and t.attr in fields:
+                    n += 1
+                    for e in sorted(fields[t.attr]):
+                        if intenums.get(e):
+                            hits.append((f, norm(t), e, intenums[e][0], t))
+    return n, hits
 
 
 def invariant_filters(repo: Repo, prefixes: Iterable[str]):
